@@ -49,7 +49,7 @@ def gen_opts(rng):
 def gen_perturbation(rng, nalloc):
     """A perturbed plan as a dict of dimensions; absent dimension = canonical."""
     p = {}
-    dims = ["gc", "heapbase", "stackpad", "envpad", "wash", "clock", "pid", "env", "cwd", "gcenv"]
+    dims = ["gc", "heapbase", "stackpad", "envpad", "wash", "clock", "pid", "env", "cwd", "gcenv", "inodes"]
     on = [d for d in dims if rng.chance(1, 2)]
     if not on:
         on = [rng.choice(dims)]
@@ -100,6 +100,8 @@ def gen_perturbation(rng, nalloc):
         p["env"] = e
     if "cwd" in on:
         p["cwd"] = "/".join(rng.choice(["a", "bb", "ccc", "d.d", "e e"]) for _ in range(rng.range(1, 4)))
+    if "inodes" in on:
+        p["inodes"] = rng.choice(["collide16", "collide16", "collide8", "huge"])
     if "gcenv" in on:
         e = {}
         for v, vals in (("GC_GEFN", ["1", "3", "7"]), ("GC_GEFD", ["10", "8"]), ("GC_GGFN", ["12", "14", "20"]), ("GC_GGFD", ["10"]), ("GC_FRUGAL", ["1"])):
@@ -121,6 +123,8 @@ def plan_lines(p):
     if "pid" in p:
         out.append("pid %d" % p["pid"])
     out += p.get("gc", [])
+    if "inodes" in p:
+        out.append("fs inodes " + p["inodes"])
     return out
 
 
@@ -225,10 +229,25 @@ def main(argv):
         for g in range(ngen):
             src = progen.gen_program(vsim.Rng(seed, "c08-gen", g), size="small", force=("tokens",) if g % 2 == 0 else ())
             cands.append(("gen%03d.as" % g, src.encode(), "generated"))
+        # generated programs split over several local files (main.as includes partN.as)
+        AUX = {}
+        for g in range(3 if tier == "quick" else 20):
+            main, parts = progen.gen_program_parts(vsim.Rng(seed, "c08-parts", g), size="small")
+            nm = "inc%03d.as" % g
+            pre = "i%03d_" % g
+            for k in list(parts):
+                main = main.replace('"%s"' % k, '"%s%s"' % (pre, k))
+            AUX[nm] = dict((pre + k, v.encode()) for k, v in parts.items())
+            cands.append((nm, main.encode(), "generated"))
         work = []
         for name, text, origin in cands:
             work.append((name, text, origin, gen_opts(vsim.Rng(seed, "c08-opts", name))))
-        refs = vsim.pmap(lambda w_: run_compile(binfo, scratch, {w_[0]: w_[1]}, w_[3], [w_[0]], {}), work)
+
+        def files_of(name, text):
+            d = {name: text}
+            d.update(AUX.get(name, {}))
+            return d
+        refs = vsim.pmap(lambda w_: run_compile(binfo, scratch, files_of(w_[0], w_[1]), w_[3], [w_[0]], {}), work)
         progs = []
         dropped = []
         ncorpus = 0
@@ -289,13 +308,13 @@ def main(argv):
         for b0 in range(0, len(cases), B):
             if budget.over():
                 break
-            results += vsim.pmap(lambda c: run_compile(binfo, scratch, {progs[c[0]]["name"]: progs[c[0]]["text"]},
+            results += vsim.pmap(lambda c: run_compile(binfo, scratch, files_of(progs[c[0]]["name"], progs[c[0]]["text"]),
                                                        progs[c[0]]["opts"], [progs[c[0]]["name"]], c[1]), cases[b0:b0 + B])
         done = len(results)
 
         # ---- batching: several files in one invocation vs one at a time -----------
         batch_cases = []
-        okprogs = [i for i, pr in enumerate(progs) if pr["ref"].rc == 0 and pr["origin"] != "corpus-wide"]
+        okprogs = [i for i, pr in enumerate(progs) if pr["ref"].rc == 0 and pr["origin"] != "corpus-wide" and pr["name"] not in AUX]
         rngb = vsim.Rng(seed, "c08-batch")
         nb = 10 if tier == "quick" else 120
         bopts = ["-Q2", "-Fao", "-Ffm", "-Fc", "-Flsp"]
@@ -359,7 +378,7 @@ def main(argv):
 
             def fails(dimlist):
                 q = dict((k, p[k]) for k in dimlist)
-                rr = run_compile(binfo, scratch, {pr["name"]: pr["text"]}, pr["opts"], [pr["name"]], q)
+                rr = run_compile(binfo, scratch, files_of(pr["name"], pr["text"]), pr["opts"], [pr["name"]], q)
                 return bool(differs(rr, pr["ref"]))
             dl = dims_of(p)
             if not dl:
@@ -371,7 +390,7 @@ def main(argv):
                 else:
                     mind = dl
                 q = dict((k, p[k]) for k in mind)
-                rr = run_compile(binfo, scratch, {pr["name"]: pr["text"]}, pr["opts"], [pr["name"]], q)
+                rr = run_compile(binfo, scratch, files_of(pr["name"], pr["text"]), pr["opts"], [pr["name"]], q)
                 d2 = differs(rr, pr["ref"])
                 if not d2:
                     mind, d2 = dl, d
@@ -418,8 +437,8 @@ def main(argv):
             pr = progs[pi]
             mind, d = vinfo[ci]
             q = dict((k, p[k]) for k in mind) if mind else {}
-            r1 = run_compile(binfo, scratch, {pr["name"]: pr["text"]}, pr["opts"], [pr["name"]], q)
-            r2 = run_compile(binfo, scratch, {pr["name"]: pr["text"]}, pr["opts"], [pr["name"]], q)
+            r1 = run_compile(binfo, scratch, files_of(pr["name"], pr["text"]), pr["opts"], [pr["name"]], q)
+            r2 = run_compile(binfo, scratch, files_of(pr["name"], pr["text"]), pr["opts"], [pr["name"]], q)
             if r1.outcome_hash() != r2.outcome_hash() and mind:
                 out.nondet.append("case %d: same plan twice gives different outputs" % ci)
                 continue
@@ -427,7 +446,8 @@ def main(argv):
                 out.nondet.append("case %d: violation %s did not reproduce" % (ci, key))
                 continue
             rp = vsim.write_replay(PID, "seed%d-c%d" % (seed, ci), {
-                "property": PID, "seed": seed, "files": {pr["name"]: pr["text"].decode("latin-1")}, "opts": pr["opts"],
+                "property": PID, "seed": seed,
+                "files": dict((k, v.decode("latin-1")) for k, v in files_of(pr["name"], pr["text"]).items()), "opts": pr["opts"],
                 "srcs": [pr["name"]], "perturbation": q, "differs": differs(r1, pr["ref"]), "key": key,
                 "source_key": binfo["key"], "other_failing_cases": len(ids) - 1})
             out.violations.append({"key": key, "cls": "differs", "detail": "%s %s under %s (%d cases)" % (pr["name"], differs(r1, pr["ref"]), q, len(ids)), "replay": rp})
